@@ -8,12 +8,13 @@ wt=/root/scratch/confirm_$name
 log=/root/scratch/confirm_$name.log
 git -C /repo worktree remove --force $wt >/dev/null 2>&1
 git -C /repo worktree add --detach $wt HEAD >/dev/null 2>&1 || exit 2
-mkdir -p $wt/.rt_tmp
+mkdir -p $wt/.rt_tmp $wt/.rt_out/X
+cp $src/demo.py $wt/.rt_out/X/demo.py   # demos that locate the tree from their own path then see the scratch worktree
 run() { (cd $wt && PYTHONPATH=$wt NUMBA_CACHE_DIR=$wt/.nb PYTHONHASHSEED=0 timeout 1800 /venv/bin/python "$@"); }
 {
-echo "== clean demo"; run $src/demo.py; c=$?; echo "exit=$c"
+echo "== clean demo"; run $wt/.rt_out/X/demo.py; c=$?; echo "exit=$c"
 echo "== apply"; git -C $wt apply $src/patch.diff; a=$?; echo "apply=$a"
-echo "== patched demo"; run $src/demo.py; p=$?; echo "exit=$p"
+echo "== patched demo"; run $wt/.rt_out/X/demo.py; p=$?; echo "exit=$p"
 echo "== patched suite"; run -m pytest -q -p no:cacheprovider --timeout=900 tests 2>&1 | tail -5; s=${PIPESTATUS[0]}; echo "suite_exit=$s"
 } > $log 2>&1
 c=$(grep -m1 -A0 "^exit=" $log | head -1 | cut -d= -f2)
